@@ -37,10 +37,13 @@ type c01Scen struct {
 	Phases  [][]c01Pub  `json:"phases"`
 	// Leaves[p] = clients whose session ends (clean session DISCONNECT or TerminateSession) after phase p
 	Leaves [][]int `json:"leaves,omitempty"`
+	// APIReuse: the in-process publisher keeps ONE *gmqtt.Message and, before every Publish, sets the fields an
+	// application sets (topic, QoS, retain, payload, properties) - it never touches what the broker fills in.
+	APIReuse bool `json:"api_reuse,omitempty"`
 }
 
 func genC01(t *rapid.T) c01Scen {
-	s := c01Scen{Mode: rapid.SampledFrom([]string{"overlap", "onlyonce"}).Draw(t, "mode")}
+	s := c01Scen{Mode: rapid.SampledFrom([]string{"overlap", "onlyonce"}).Draw(t, "mode"), APIReuse: rapid.Bool().Draw(t, "api_reuse")}
 	nc := rapid.IntRange(1, 5).Draw(t, "nclients")
 	for i := 0; i < nc; i++ {
 		c := c01Client{V: rapid.SampledFrom([]int{4, 5, 5}).Draw(t, "v")}
@@ -117,6 +120,13 @@ func apiMsg(p c01Pub, uid string) *gmqtt.Message {
 		m.UserProperties = []packets.UserProperty{{K: []byte("k"), V: []byte("v")}, {K: []byte("k"), V: []byte("w")}}
 	}
 	return m
+}
+
+// fillAPIMsg makes m the application message of p by assigning the fields an application would assign.
+func fillAPIMsg(m *gmqtt.Message, p c01Pub, uid string) {
+	f := apiMsg(p, uid)
+	m.Topic, m.QoS, m.Retained, m.Payload = f.Topic, f.QoS, f.Retained, f.Payload
+	m.PayloadFormat, m.ContentType, m.ResponseTopic, m.CorrelationData, m.UserProperties = f.PayloadFormat, f.ContentType, f.ResponseTopic, f.CorrelationData, f.UserProperties
 }
 
 // expectedDeliveries is the C01 delivery model for one client.
@@ -299,6 +309,13 @@ func runC01(s c01Scen, c *ev.Case) *ev.Violation {
 		verified[i] = true
 		return nil
 	}
+	var reused gmqtt.Message // only the API publisher's goroutine (one per phase, phases are sequential) touches it
+	apiReused := 0
+	defer func() {
+		if apiReused >= 2 {
+			c.Label("api_message_object_reused")
+		}
+	}()
 	for pi, ph := range s.Phases {
 		by := map[int][]sentRec{}
 		var order []int
@@ -325,7 +342,13 @@ func runC01(s c01Scen, c *ev.Case) *ev.Violation {
 				defer wg.Done()
 				for k, r := range recs {
 					if who == -1 {
-						b.Srv.Publisher().Publish(apiMsg(r.pub, r.uid))
+						if s.APIReuse {
+							fillAPIMsg(&reused, r.pub, r.uid)
+							b.Srv.Publisher().Publish(&reused)
+							apiReused++
+						} else {
+							b.Srv.Publisher().Publish(apiMsg(r.pub, r.uid))
+						}
 						continue
 					}
 					cl := clients[who]
